@@ -199,6 +199,8 @@ def num_binop(m, op, x, y):
     xs, ys = m.strip(x), m.strip(y)
     if isinstance(xs, F) and isinstance(ys, F):
         return f_bin(m, op, xs, ys)
+    if op == "add" and isinstance(xs, Str) and isinstance(ys, Str):
+        return Str(xs.s + ys.s)          # String + &str
     if (isinstance(xs, int) or is_sym(xs)) and (isinstance(ys, int) or is_sym(ys)):
         return i_bin(op, xs, ys)
     tr = {"add": "Add", "sub": "Sub", "mul": "Mul", "div": "Div", "rem": "Rem"}[op]
